@@ -27,8 +27,35 @@ pub struct SplitStats {
 
 /// One range through rank_pairs() and orphan_card_pairs() against R4.
 pub fn check_content(content: &Content, label: &str, report: &mut Report, stats: &mut SplitStats) {
-    report.evaluations += 1;
     let range = to_range(content);
+    check_range(range, content, label, report, stats);
+}
+
+/// Ranges built by the parser from texts that spell rank pairs kicker first and combos low card first.
+fn check_parsed_spellings(report: &mut Report, stats: &mut SplitStats) {
+    let texts = [
+        "KAs", "2Ao", "KAs,QAo:0.5", "AKs,KAs:0.5", "AKs,KsAs:0.5", "KsAs,KhAh,KdAd,KcAc", "JhJs,JdJs,JcJs,JdJh,JcJh,JcJd", "8c9d,8c9h,8c9s,8d9c,8d9h,8d9s,8h9c,8h9d,8h9s,8s9c,8s9d,8s9h",
+        "22+,2Ao,3As:0.25,KsAs:0.5", "T9s,9Ts:0.5,9sTs:0.25", "5To,T5o:0.5",
+    ];
+    for t in texts {
+        match catch(|| t.parse::<espada::hand_range::HandRange>()) {
+            Ok(Ok(range)) => {
+                if let Some(d) = duplicate_physical_combo(&range) {
+                    report.evaluations += 1;
+                    report.violate(format!("combo-twice:{}", t), format!("'{}' parses to a range that holds one combo under two keys ({}): the two views cannot cover every combo exactly once", t, d), content_json("split", &read_range(&range)).set("text", Json::str(t)));
+                    continue;
+                }
+                let content = read_range(&range);
+                check_range(range, &content, &format!("parsed:{}", t), report, stats);
+                report.count("parsed_ranges_with_reversed_spellings", 1);
+            }
+            _ => {} // rejecting such a text is the parser's business (C05/C09)
+        }
+    }
+}
+
+fn check_range(range: espada::hand_range::HandRange, content: &Content, label: &str, report: &mut Report, stats: &mut SplitStats) {
+    report.evaluations += 1;
     let got = catch(|| (range.rank_pairs(), range.orphan_card_pairs()));
     let case = || content_json("split", content);
     let sig = |kind: &str| format!("{}:{}:{:016x}", kind, label, content_hash(content));
@@ -266,6 +293,7 @@ pub fn run(ctx: &Ctx) -> Report {
     );
     let mut report = Report::new();
     let mut stats = SplitStats::default();
+    check_parsed_spellings(&mut report, &mut stats);
     for (r, s) in results {
         report.merge(r);
         stats.complete += s.complete;
